@@ -26,3 +26,73 @@ package eds
 //@   property C05 C09
 //@   noframe
 //@   callpre eds.Accessor).RangeNamespaceData: 0 <= from && from < to && to <= (edsSize/2)*(edsSize/2)
+
+// ---------------------------------------------------------------------------------------------
+// C05: the proof-caching wrapper. Every cache entry is tied to the wrapped accessor by two abstract
+// predicates: isHalfOf(in, t, k, h) - "h is what in.AxisHalf(t, k) returns" - and isExtOf(h, s) -
+// "s is h.Extended()". The representation invariant cacheOK says that every entry of axisCache[t]
+// under key k holds a half of (t, k) of the wrapped accessor and, if it holds extended shares, the
+// extension of that very half. The invariant is per entry, so it is stable under the interleavings the
+// RWMutex allows: a store replaces one entry by another valid one.
+
+//@ pure func isHalfOf(in Accessor, t int, k int, h shwap.AxisHalf) bool
+//@ pure func isExtOf(h shwap.AxisHalf, s []libshare.Share) bool
+//@ pure func entryOK(in Accessor, t int, k int, e axisWithProofs) bool = isHalfOf(in, t, k, e.half) && (len(e.shares) != 0 ==> isExtOf(e.half, e.shares)) && (e.proofs != nil ==> len(e.shares) != 0)
+//@ pure func cacheOK(c *proofsCache) bool = c != nil && len(c.axisCache) == 2 && c.axisCache[0] != nil && c.axisCache[1] != nil && c.axisCache[0] != c.axisCache[1] && (forall k int :: has(c.axisCache[0], k) ==> entryOK(c.inner, 0, k, c.axisCache[0][k])) && (forall k int :: has(c.axisCache[1], k) ==> entryOK(c.inner, 1, k, c.axisCache[1][k]))
+
+// assumed: the wrapped accessor's answer defines isHalfOf; AxisHalf.Extended defines isExtOf
+//@ extern (github.com/celestiaorg/celestia-node/share/eds.Accessor).AxisHalf
+//@   params in ctx axisType axisIdx
+//@   ensures err == nil ==> isHalfOf(in, int(axisType), axisIdx, result0)
+//@ extern (github.com/celestiaorg/celestia-node/share/shwap.AxisHalf).Extended
+//@   ensures err == nil ==> isExtOf(a, result0) && len(result0) != 0
+
+//@ func (*proofsCache).getAxisFromCache
+//@   property C05
+//@   requires cacheOK(c) && (axisType == 0 || axisType == 1)
+//@   ensures result1 ==> entryOK(c.inner, int(axisType), axisIdx, result0)
+//@   ensures !result1 ==> result0.proofs == nil && len(result0.shares) == 0
+
+//@ func (*proofsCache).storeAxisInCache
+//@   property C05
+//@   requires cacheOK(c) && (axisType == 0 || axisType == 1) && entryOK(c.inner, int(axisType), axisIdx, axis)
+//@   modifies c.axisCache[axisType]
+//@   ensures cacheOK(c)
+
+//@ func (*proofsCache).AxisHalf
+//@   property C05
+//@   requires cacheOK(c) && (axisType == 0 || axisType == 1)
+//@   modifies c.axisCache[axisType]
+//@   ensures cacheOK(c)
+//@   ensures err == nil ==> isHalfOf(c.inner, int(axisType), axisIdx, result0)
+
+//@ func (*proofsCache).axisShares
+//@   property C05
+//@   requires cacheOK(c) && (axisType == 0 || axisType == 1)
+//@   modifies c.axisCache[axisType]
+//@   ensures cacheOK(c)
+//@   ensures err == nil ==> exists h shwap.AxisHalf :: isHalfOf(c.inner, int(axisType), axisIdx, h) && isExtOf(h, result0)
+
+// Size only touches the cached size; the wrapped accessor and the axis cache stay as they are.
+//@ func (*proofsCache).Size
+//@   property C05
+//@   requires c != nil
+//@   modifies c
+//@   ensures c.inner == old(c.inner) && c.axisCache == old(c.axisCache) && c.disableCache == old(c.disableCache)
+
+//@ func (*proofsCache).axisWithProofs
+//@   property C05
+//@   requires cacheOK(c) && (axisType == 0 || axisType == 1)
+//@   modifies c
+//@   modifies c.axisCache[axisType]
+//@   ensures cacheOK(c) && c.inner == old(c.inner)
+//@   ensures err == nil ==> entryOK(c.inner, int(axisType), axisIdx, result0) && len(result0.shares) != 0
+
+// The sampled share is cell idx.Col of the extension of row idx.Row's half of the wrapped accessor.
+//@ func (*proofsCache).Sample
+//@   property C05
+//@   requires cacheOK(c)
+//@   modifies c
+//@   modifies c.axisCache[0]
+//@   ensures cacheOK(c) && c.inner == old(c.inner)
+//@   checks err == nil ==> entryOK(c.inner, 0, idx.Row, ax) && len(ax.shares) != 0 && result0.Share == ax.shares[idx.Col]
